@@ -117,9 +117,10 @@ theorem decodeTbsId_encodeTbsId (d : IdCertD) (h : WF d) (sig : Bytes) :
   have hx : takeOptCons 0xA3 (tlv 0xA3 (tlv tagSeq (seqs (idExtItems d)))) = .ok (tlv tagSeq (seqs (idExtItems d))) [] := by
     have := takeOptCons_tlv' 0xA3 (tlv tagSeq (seqs (idExtItems d))) [] (by decide) (by decide)
     rwa [List.append_nil] at this
+  unfold idExtsOf
   rw [hx]
   dsimp only
-  simp only [not_true_eq_false, if_false]
+  try simp only [ne_eq, not_true_eq_false, if_false]
   rw [takeCons_tlv_nil tagSeq _ (by decide) (by decide)]
   dsimp only
   simp only [not_true_eq_false, if_false]
